@@ -1,6 +1,6 @@
 SPECIFICATION Spec
 CONSTANTS
-  Alpha <- cAttrs
+  Alpha <- cAttrs2
   MaxElems = 2
   MaxTextKids = 0
   MaxExtras = 0
